@@ -778,7 +778,7 @@ def c10(out, tier):
         for v in r["violations"] + r["panics"]:
             if not v.get("chars"):
                 continue
-            key = "C10|%s|%s" % (v.get("label", "panic"), bytes(v["chars"]).hex())
+            key = "C10|%s|split%s" % (v.get("label", "panic"), v["lens"])
             if key in seen:
                 continue
             seen.add(key)
